@@ -8,7 +8,7 @@ from __future__ import annotations
 import json
 
 import sympy
-from sympy import Float, Symbol, cos, sin, srepr
+from sympy import Float, Symbol, cos, sin, sqrt, srepr
 
 from fsim.core import fx, xf
 
@@ -38,8 +38,12 @@ def _term(rng, syms, depth):
         return cos(_term(rng, syms, depth - 1))
     if r < 0.84:
         return _term(rng, syms, depth - 1) ** rng.choice([2, 3])
-    if r < 0.92:
+    if r < 0.90:
         return _term(rng, syms, depth - 1) / (1 + _atom(rng, syms) ** 2)
+    if r < 0.93 and syms:
+        # quadratic-drag shape: v*|v| written as v*sqrt(v**2) (sign-sensitive; an "assume positive" rewrite breaks it)
+        v = rng.choice(syms)
+        return v * sqrt(v ** 2)
     return _term(rng, syms, depth - 1) + _term(rng, syms, depth - 1)
 
 
@@ -87,6 +91,7 @@ def draw(rng, *, max_states=4, max_controls=3, max_cal=2, max_sensors=3, max_rea
     nsens = rng.randint(min_sensors, max_sensors)
     sensors = {}
     used = set()
+    all_reading_names = []
     for _ in range(nsens):
         key = rng.choice(SENSOR_KEYS) + str(rng.randint(0, 9))
         # keep distinct after .title()/.upper() (C++ type and enum names)
@@ -99,11 +104,22 @@ def draw(rng, *, max_states=4, max_controls=3, max_cal=2, max_sensors=3, max_rea
         stems = rng.sample(["r", "R", "bearing", "range", "az", "_z", "el", "Q"], m)
         for j in range(m):
             rn = "%s%d_%s" % (stems[j], rng.randint(0, 9), rng.choice(READING_SUFFIX))
+            r_ = rng.random()
+            if r_ < 0.12:
+                rn = rng.choice(["vx", "px", "qz", "hy"])  # two-character names (a string is also an iterable of characters)
+            elif r_ < 0.35 and all_reading_names:
+                rn = rng.choice(all_reading_names)  # the same reading name in another sensor, with its own noise
+            if rn in rd:
+                continue
+            all_reading_names.append(rn)
             if linear:
                 rd[rn] = sum((Float(rng.choice(CONSTS)) * t for t in rng.sample(S + C, min(len(S + C), rng.randint(1, 2)))), Float(0)) + rng.choice(S)
             else:
                 rd[rn] = _term(rng, S + C, 2) + rng.choice(S)
-        key_kind = "Symbol" if (symbol_keys and m == 1 and rng.random() < 0.15) else "str"
+        if not rd:
+            rd["r%d_a" % rng.randint(0, 9)] = rng.choice(S) + Float(0.5)
+        m = len(rd)
+        key_kind = rng.choice(["Symbol", "Symbol", "Symbol_noise_only", "Symbol_model_only"]) if (symbol_keys and m == 1 and rng.random() < 0.2) else "str"
         sensors[key] = {"readings": {k: srepr(v) for k, v in rd.items()}, "noise": {k: fx(_noise(rng)) for k in _shuffled(rng, list(rd))}, "key_kind": key_kind}
         if list(rd) != sorted(rd):
             tags.append("readings_declared_unsorted")
@@ -199,9 +215,9 @@ def build_noise(d):
     process_noise = {Symbol(k): xf(v) for k, v in d["process_noise"].items()}
     sensor_models, sensor_noises = {}, {}
     for key, sd in d["sensors"].items():
-        sym = sd.get("key_kind") == "Symbol"
-        sensor_models[key] = {(Symbol(r) if sym else r): parse(e) for r, e in sd["readings"].items()}
-        sensor_noises[key] = {(Symbol(r) if sym else r): xf(n) for r, n in sd["noise"].items()}
+        kk = sd.get("key_kind", "str")
+        sensor_models[key] = {(Symbol(r) if kk in ("Symbol", "Symbol_model_only") else r): parse(e) for r, e in sd["readings"].items()}
+        sensor_noises[key] = {(Symbol(r) if kk in ("Symbol", "Symbol_noise_only") else r): xf(n) for r, n in sd["noise"].items()}
     calibration_map = {Symbol(k): xf(v) for k, v in d["calibration_map"].items()}
     return {"process_noise": process_noise, "sensor_models": sensor_models, "sensor_noises": sensor_noises, "calibration_map": calibration_map}
 
